@@ -91,7 +91,11 @@ def world_forwarded(m):
     if not m.logic.Meta.modal: return True
     return all(kw.get('world') == WORLD for _, kw in m.kw_seen)
 
-def work_logic(lname):
+def work_operated(lname):
+    "only the truth-functional clause of value_of_operated for one logic (re-stated by C07: the value a MODEL assigns is the table's)"
+    return work_logic(lname, only_operated=True)
+
+def work_logic(lname, only_operated=False):
     from pytableaux.logics import registry
     from pytableaux.lang import Operator, Quantifier
     logic = registry(lname)
@@ -122,6 +126,7 @@ def work_logic(lname):
         if bad is None: break
     if bad is not None:
         results.append(discharge(enum_ob(f'C08.{L}.operated.truth-functional', not bad, logic=L, clause='value_of_operated(op(s1..sn)) = table_op(value_of(s1), .., value_of(sn))', cex=(bad[0] if bad else None), cex_all=bad or None)))
+    if only_operated: return results, funcs
     # quantifiers and modal operators over every family of size <= 3 (0 allowed for accessible worlds)
     def families(lo):
         for k in range(lo, 4):
